@@ -39,3 +39,29 @@ package function
 //@ func duplicateFullTriggersFromContractedFunctionsToCallers
 //@ prop C07
 //@ modifies *
+
+//@ -- C20 (second sentence, "whether the callee is in the same or another package"; defect F11): the triggers of a
+//@ -- contracted function of ANOTHER package cannot be duplicated (they are not in its facts), but its calls use
+//@ -- call-site sites all the same.  Every such call is connected to the function's shared sites: the call-site
+//@ -- argument site flows into the shared parameter site (uncontrolled), and the shared result site flows into the
+//@ -- call-site result site of THIS call expression, gated on THIS call's argument site.
+//@ func connectCallSiteToUpstreamFunction
+//@ prop C20 C07
+//@ requires (>= (len callExpr.Args) 1)
+//@ modifies *
+//@ ensures two-connections (= (len result) 2)
+//@ ensures argument-flows-into-the-shared-parameter (let ((t (idx result 0)) (argLoc (call |(*go.uber.org/nilaway/util/analysishelper.EnhancedPass).PosToLocation| pass (mcall Pos (idx callExpr.Args 0)))))
+//@    (and (= (. t Controller) nil)
+//@         (is (. t Producer Annotation) *annotation.FuncParam)
+//@         (= (. (as (. t Producer Annotation) *annotation.FuncParam) TriggerIfNilable Ann) (iface *annotation.CallSiteParamAnnotationKey (call |go.uber.org/nilaway/annotation.NewCallSiteParamKey| callee 0 argLoc)))
+//@         (is (. t Consumer Annotation) *annotation.ArgPass)
+//@         (= (. (as (. t Consumer Annotation) *annotation.ArgPass) TriggerIfNonNil Ann) (iface *annotation.ParamAnnotationKey (call |go.uber.org/nilaway/annotation.ParamKeyFromArgNum| callee 0)))))
+//@ ensures shared-result-flows-into-this-call-gated-on-its-argument (let ((t (idx result 1)) (argLoc (call |(*go.uber.org/nilaway/util/analysishelper.EnhancedPass).PosToLocation| pass (mcall Pos (idx callExpr.Args 0))))
+//@                                                                 (retLoc (call |(*go.uber.org/nilaway/util/analysishelper.EnhancedPass).PosToLocation| pass (call |(*go/ast.CallExpr).Pos| callExpr))))
+//@    (and (= (. t Controller) (call |go.uber.org/nilaway/annotation.NewCallSiteParamKey| callee 0 argLoc))
+//@         (is (. t Producer Annotation) *annotation.FuncReturn)
+//@         (= (. (as (. t Producer Annotation) *annotation.FuncReturn) TriggerIfNilable Ann) (iface *annotation.RetAnnotationKey (call |go.uber.org/nilaway/annotation.RetKeyFromRetNum| callee 0)))
+//@         (is (. t Consumer Annotation) *annotation.UseAsReturn)
+//@         (not (. (as (. t Consumer Annotation) *annotation.UseAsReturn) IsNamedReturn))
+//@         (is (. (as (. t Consumer Annotation) *annotation.UseAsReturn) TriggerIfNonNil Ann) *annotation.CallSiteRetAnnotationKey)
+//@         (= (calls "NewCallSiteRetKey") 1) (= (callarg "NewCallSiteRetKey" 0 0) callee) (= (callarg "NewCallSiteRetKey" 0 1) 0) (= (callarg "NewCallSiteRetKey" 0 2) retLoc)))
